@@ -513,7 +513,7 @@ class JunctionCompartment(Compartment):
                 net_inflow += link.vals[ti]  # If not part of a duration group, get scalar flow from Link.vals
 
         # Next, get the total outflow. Note that the parameters are guaranteed to be in proportion units here
-        outflow_fractions = [link.parameter.vals[ti] for link in self.outlinks]
+        outflow_fractions = [np.maximum(link.parameter.vals[ti], 0.0) for link in self.outlinks]  # A negative proportion moves nobody (never a reverse flow)
         total_outflow = sum(outflow_fractions)
 
         # Finally, assign the inflow to the outflow proportionately accounting for the total outflow downscaling
@@ -540,6 +540,7 @@ class JunctionCompartment(Compartment):
         if self.vals[0] > 0:
             # Work out the outflow fractions
             outflow_fractions = np.array([link.parameter.vals[0] for link in self.outlinks])
+            outflow_fractions = np.maximum(outflow_fractions, 0.0)  # A negative proportion moves nobody (never a reverse flow)
             outflow_fractions /= np.sum(outflow_fractions)
 
             # Assign the inflow directly to the outflow compartments
@@ -584,6 +585,7 @@ class ResidualJunctionCompartment(JunctionCompartment):
                 outflow_fractions[i] = link.parameter.vals[ti]
             else:
                 outflow_fractions[i] = 0
+        outflow_fractions = np.maximum(outflow_fractions, 0.0)  # A negative proportion moves nobody (never a reverse flow)
 
         total_outflow = outflow_fractions.sum()
         if total_outflow > 1:
@@ -618,6 +620,7 @@ class ResidualJunctionCompartment(JunctionCompartment):
                     outflow_fractions[i] = link.parameter.vals[0]
                 else:
                     outflow_fractions[i] = 0
+            outflow_fractions = np.maximum(outflow_fractions, 0.0)  # A negative proportion moves nobody (never a reverse flow)
 
             total_outflow = sum(outflow_fractions)
 
